@@ -201,6 +201,14 @@ def c17_quick_models():
     for tname in ("StoreVtbl", "StoreContainer", "CGlueStore", "Échelle"):
         tt = trait(tname, [meth("store_put", "mut", ["u64"], "void"), meth("store_take", "own", [], "u64")])
         out.append(("names:trait:%s" % tname, model([tt, tr[0]], [{"name": "Bundle", "mandatory": ["Alpha"], "optional": [tname]}], [obj(tname), grp("Bundle")])))
+    # F7c argument names that resemble the generator's own words: a pointer argument whose name starts with `cont` next to the
+    #     by-value container of a consuming entry, arguments named like members of the generated C++ classes
+    for names in (["control", "context_id"], ["container", "vtbl"], ["cont_ptr", "instance"]):
+        cm = dict(meth("alpha_close", "own", ["ptr_mut", "u64"], "u64"), arg_names=names)
+        gm = dict(meth("alpha_get", "ref", ["ptr_mut", "u64"], "u64"), arg_names=names)
+        for c, x in (("Box", "arc"), ("Box", "none")):
+            out.append(("names:args:%s:%s:%s" % ("+".join(names), c, x), single([gm, cm], c, x, "obj")))
+        out.append(("names:args:%s:group" % "+".join(names), single([gm, cm], "Box", "arc", "gmand")))
     # F8 Self-returning entry (clone) as object and inside a group
     cl = [meth("alpha_get", "ref", ["u64"], "u64"), meth("alpha_dup", "ref", [], "self")]
     for form in ("obj", "gmand", "gopt"):
